@@ -377,6 +377,23 @@ PROPS["C08"] = {
     "assumptions": KANI_ASSUME,
 }
 
+PROPS["C20"] = {
+    "crate": "lc",
+    "groups": [
+        {"id": "algebra", "quick": ["c20_and_all_pairs", "c20_and_triples_associative", "c20_predicates", "c20_negative_twin"],
+         "timeout": 600},
+    ],
+    "negative": ["c20_negative_twin"],
+    "bounds": "all 9 ordered pairs and all 27 triples of verdicts through VerifyLayout::and (symbolic selectors), the strict and "
+              "relaxed predicates for all 3 verdicts, the repr(u8) discriminants",
+    "outside": "the accept/reject core of the property (identical interfaces => Valid; any single-edit variant => never Valid; a "
+               "missing description => Unknown): compare_layouts calls abi_stable::check_layout_compatibility and the Kani compiler "
+               "panics while generating code for that call graph (kani-compiler/src/intrinsics.rs:243, re-confirmed by a probe "
+               "harness on compare_layouts(None, None)); hand-translating abi_stable's checker is out of reach, and running it on "
+               "concrete pairs would be enumeration of concrete runs, not this technique",
+    "assumptions": KANI_ASSUME,
+}
+
 # <<SPECS-END>>
 
 from props_text import MANIFEST_TEXT, NOT_YET  # noqa: E402
